@@ -52,7 +52,7 @@ SYS_DOCS = {
 }
 SYS_ATOMS = ["", "*", "+", "-", "0", "-1", "1$", "$", "A", "b", "zz", "A+", "B-", "Ax", "A+,B-", "A+ B-", "A+,zz-", "1M",
              "1,2", "xx:i:1", "xx:J:{", " ", "\x00", "\u00e9", "1e5", "x" * 300, "e1", "e1+", "u1", "p", "o1-", "3X",
-             "10", "11$", "A B zz", "A+ zz+"]
+             "10", "11$", "A B zz", "A+ zz+", "xx:J:" + "[" * 6000 + "]" * 6000]
 
 
 def sys_cases():
